@@ -55,9 +55,11 @@ def plainSession (cfg : LifeCfg) : String :=
 /-- the client-visible actions -/
 inductive LifeAct where
   | start | stop | restart
+  | stopstorm                               -- Stop while clients keep connecting
   | ping (tls : Bool) (cert : String)       -- connect, one session, disconnect
   | open_ (tls : Bool) (id : String)        -- connect, one session, stay connected
   | cclose (id : String) | rst (id : String) | half (id : String) | quit (id : String) | bad (id : String)
+  | unread (id : String)                    -- pipelines requests and goes away without reading the replies
   | alive (id : String) | cmd (id : String)
   | tlsbad (kind : String) (id : String)    -- a faulty client on the TLS port
   | obs
@@ -69,6 +71,7 @@ def LifeCfg.up (cfg : LifeCfg) (s : LifeSt) (tls : Bool) : Bool := s.running && 
 def lifeStepA (cfg : LifeCfg) (s : LifeSt) : LifeAct → String × LifeSt
   | .start => if s.running then ("err", s) else ("ok", { s with running := true })
   | .stop => ("ok", { s with running := false, conns := [] })
+  | .stopstorm => ("ok", { s with running := false, conns := [] })
   | .restart => ("ok", { s with running := true, conns := [] })
   | .ping tls cert =>
     if !cfg.up s tls then ("refused", s) else
@@ -87,6 +90,7 @@ def lifeStepA (cfg : LifeCfg) (s : LifeSt) : LifeAct → String × LifeSt
   | .cclose id => ("ok", s.drop id)
   | .rst id => ("ok", s.drop id)
   | .half id => ("ok", s.drop id)
+  | .unread id => ("ok", s.drop id)
   | .quit id => (if s.has id then "+OK/down" else "gone/down", s.drop id)
   | .bad id => ("down", s.drop id)
   | .alive id => (if s.has id then "up" else "down", s)
@@ -106,12 +110,14 @@ def parseLifeAct (action : String) : Option LifeAct :=
   match action.splitOn ":" with
   | ["start"] => some .start
   | ["stop"] => some .stop
+  | ["stopstorm"] => some .stopstorm
   | ["restart"] => some .restart
   | "ping" :: k :: rest => some (.ping (k == "t") (rest.headD "good"))
   | ["open", k, id] => some (.open_ (k == "t") id)
   | ["cclose", id] => some (.cclose id)
   | ["rst", id] => some (.rst id)
   | ["half", id] => some (.half id)
+  | ["unread", id] => some (.unread id)
   | ["quit", id] => some (.quit id)
   | ["bad", id] => some (.bad id)
   | ["alive", id] => some (.alive id)
